@@ -4,4 +4,12 @@ CHECKS = {
   'note': 'clang front end; sympy polynomial expansion; size_t products do not wrap; paper proof of the tiling theorem from the canonical forms',
   'technique': 'static def-use normal forms vs documented formulas (sympy identity), call-site argument binding'},
 }
+CHECKS['C13'] = {
+  'text': 'Decides that weighted_with_variance, weighted_equally, chi_square_dof, create_result and the per-bin combination compute exactly the documented formulas: each function is summarised (loops as reductions) and value()/variance() of the returned result are compared with sum(E_i/S_i^2)/sum(1/S_i^2), 1/sum(1/S_i^2), the mean / standard error of the mean and sum((E_i-E)^2/S_i^2)/(n-1) by rational-function identity; every loop-carried value must be a commutative reduction over the current element only (order independence); the per-bin combination must apply the same Accumulator to bin (j,k) of every result for all (j,k). Bounds (between min and max, error <= S_i) follow on paper from the decided forms; numerical tolerances are not decided.',
+  'note': 'clang front end; sympy; positive variances and calls >= 2 (premise); real arithmetic',
+  'technique': 'static loop-to-reduction summaries + expression normal-form identity against documented formulas'}
+CHECKS['C02'] = {
+  'text': 'Decides the structural content of the estimator: per-call loops run 0..calls with one unconditional accumulator.invoke; invoke calls the integrand once, returns 0 / f*w / 0 and updates sum, sum of squares and the two counters exactly for the classes (zero, finite non-zero, non-finite); accumulate() adds v and v^2; value/variance/error are the documented formulas; result() binds every stored quantity to the parameter of the same role; VEGAS / multi-channel adjustment data are the documented per-bin and per-channel sums. All by def-use summaries and normal-form identity; nothing numerical is claimed.',
+  'note': 'clang front end; sympy; user integrand opaque and pure; real arithmetic (Kahan compensation is zero over the reals)',
+  'technique': 'static def-use summaries, effect sets per input class, argument-role binding, normal-form identity'}
 NOT_APPLICABLE = {}
